@@ -109,6 +109,52 @@ def extract():
         raise ExtractError("_load_config: max_level not found")
     C["guesser_max_level_src"] = ml
 
+    # ---- line framing / codec of the three readers (C11)
+    # scorer: how IP.level / CP.level are opened
+    lo = _func(sc, "_load_omen")
+    opens = [ast.unparse(n) for n in ast.walk(lo) if isinstance(n, ast.Call) and
+             ((isinstance(n.func, ast.Name) and n.func.id == "open") or
+              (isinstance(n.func, ast.Attribute) and n.func.attr == "open"))]
+    if len(opens) != 3:
+        raise ExtractError("OmenScorer._load_omen: %d open calls, modelled 3: %r" % (len(opens), opens))
+    enc_ok = {"codecs.open(full_file_path, 'r', encoding=self.encoding)", "open(full_file_path, 'r', encoding=self.encoding)",
+              "codecs.open(full_file_path, 'r', encoding=self.encoding, errors='strict')",
+              "open(full_file_path, 'r', encoding=self.encoding, errors='strict')"}
+    plain = "open(full_file_path, 'r')"
+    flags = []
+    for o in opens[:2]:      # IP.level, CP.level (LN.level holds digits only)
+        if o in enc_ok:
+            flags.append(True)
+        elif o == plain:
+            flags.append(False)
+        else:
+            raise ExtractError("OmenScorer._load_omen: unexpected open call %r" % o)
+    C["scorer_opens_with_ruleset_encoding"] = all(flags)
+    # universal newlines (text mode, newline=None) unless codecs.open is used; the model's scorer_breaks is LF, CR:
+    # with codecs.open the scorer would split like the guesser
+    C["scorer_uses_codecs_reader"] = any(o.startswith("codecs.open") for o in opens[:2])
+    # guesser: _load_ngrams must iterate a codecs.open file (str.splitlines line ends)
+    ng = _func(gi, "_load_ngrams")
+    gopens = [ast.unparse(n) for n in ast.walk(ng) if isinstance(n, ast.Call) and isinstance(n.func, ast.Attribute)
+              and n.func.attr == "open"]
+    _expect("_load_ngrams open", gopens, ["codecs.open(full_file_path, 'r', encoding=grammar['alphabet_encoding'], errors='strict')"])
+    # the characters str.splitlines (codecs readline) ends a line at, probed from the running interpreter
+    allc = "".join(chr(c) for c in range(0x110000) if not 0xD800 <= c <= 0xDFFF)
+    br = sorted({ord(l[-1]) for l in ("x".join(allc) + "x").splitlines(True) if l and l[-1] != "x"})
+    if 10 not in br or 13 not in br or len(br) > 64:
+        raise ExtractError("unexpected line-break set %r" % br)
+    C["guesser_linebreaks"] = br
+    # the characters the trainer never admits into a password (check_valid)
+    tf = src("lib_trainer/trainer_file_input.py")
+    cv = _func(tf, "check_valid")
+    import importlib
+    common.repo_on_path()
+    tfi = importlib.import_module("lib_trainer.trainer_file_input")
+    rej = sorted(c for c in set(range(0, 0x3000)) | {0x2028, 0x2029, 0x85} if not tfi.check_valid("a" + chr(c) + "b"))
+    if 9 not in rej:
+        raise ExtractError("check_valid admits TAB")
+    C["trainer_rejected_chars"] = rej
+
     # probability written to pcfg_omen_prob.txt
     fo = _func(src("lib_trainer/omen/omen_file_output.py"), "save_omen_rules_to_disk")
     assigns = [ast.unparse(n) for n in ast.walk(fo) if isinstance(n, ast.Assign)]
